@@ -757,7 +757,15 @@ def run_histories(ctx, F_classes, ncases, given=None, rng=None, stream='historie
                               labels=labels, want=want, clauses=cl))
         vn = observe(lambda: varname_lines(F, cname))
         dl = observe(lambda: list(F.all_variable_labels()))
-        hs.append(dict(descr=dict(cls=cname, default_label_format=dflt, ops=ops), steps=steps, events=events, varnames=vn, default_labels=dl,
+        # the same unchanged object asked again with other default formats (what a second writer does: DIMACS varname lines use the
+        # default of the signature, LaTeX its own): every request must name variable i by the format of THAT request
+        import inspect as _inspect
+        sig_default = _inspect.signature(F.all_variable_labels).parameters['default_label_format'].default
+        again = []
+        for fmt in (sig_default, 'q<{}>', dflt):
+            again.append((fmt, observe(lambda fmt=fmt: list(F.all_variable_labels(default_label_format=fmt))),
+                          observe(lambda fmt=fmt: expected_names(F, F._groups, fmt))))
+        hs.append(dict(descr=dict(cls=cname, default_label_format=dflt, ops=ops), steps=steps, events=events, varnames=vn, default_labels=dl, again=again,
                        nops=len(ops), stream=stream))
     replies = ctx.model.batch(reqs)
     nv = len(VARIANTS)
@@ -820,6 +828,13 @@ def compare_history(ctx, h, reps):
                      dict(lines=h['varnames'][1], labels=h['default_labels'][1]), 'varnames', 'differs')
     elif h['varnames'][0] == 'exc':
         viol_cex(ctx, 'writing the varname lines raised %s' % h['varnames'][1], descr, list(h['varnames']), 'varnames', 'raises')
+    if not reported_labels:
+        for fmt, got, want in h.get('again', ()):
+            if got[0] == 'ok' and want[0] == 'ok' and got[1] != want[1]:
+                viol_cex(ctx, 'names requested again from the unchanged formula with default_label_format=%r are not the names of the '
+                              'variables under that format (earlier requests used %r and the default)' % (fmt, descr['default_label_format']),
+                         descr, dict(reported=got[1], names_of_variables=want[1], default_label_format=fmt), 'all_variable_labels', 'second-request')
+                break
     # correspondence with the model, step by step
     # the code as it is first; a tree in which some of the known defects (D2, D3, D34) are repaired agrees with
     # the corresponding model variant and raises no alarm
